@@ -160,6 +160,11 @@ class Run:
                     if m:
                         res["fails"].append(dict(check=m.group(1), case=m.group(2), line=int(m.group(3))))
                     continue
+                if line.startswith('<<"COUNT", '):
+                    m = re.match(r'<<"COUNT", "([^"]*)", (-?\d+)>>', line)
+                    if m:
+                        res.setdefault("counts", {})[m.group(1)] = int(m.group(2))
+                    continue
                 if line.startswith('<<"DRIFT", '):
                     res["drift"] = int(re.findall(r"-?\d+", line)[0])
                     continue
@@ -210,6 +215,8 @@ class Run:
             self.fails.append(f)
         if res["drift"]:
             self.drift += res["drift"]
+        for k, v in res.get("counts", {}).items():      # coverage counted by TLC itself while judging (vacuity guard)
+            self.counters[k] = self.counters.get(k, 0) + v
         self.traces_validated += n_traces
         return res
 
